@@ -1664,6 +1664,7 @@ func (u *Unit) spawnLit(st *State, lit *ast.FuncLit, how string) {
 		su.checks = u.checks
 		u.subUnits = append(u.subUnits, su)
 		su.litFrame = fr
+		su.capFacts = u.capturedConstFacts(st, lit)
 	}
 	u.checkLitRequires(st, lit, fr.spec.Lits[ord], ord, how)
 	mods := u.modified(lit.Body)
@@ -1760,6 +1761,33 @@ func (su *Unit) runLit() {
 		}
 		return true
 	})
+	// facts the creating function had about captured variables that can not change any more, over parameters it
+	// never assigns: restated over this unit's own symbols for those parameters
+	for _, f := range su.capFacts {
+		val, ok := st.vars[f.v]
+		if !ok || f.k >= len(val.L) {
+			continue
+		}
+		toks := append([]string(nil), f.toks...)
+		okAll := true
+		for i, r := range f.refs {
+			pv, have := st.vars[r.p]
+			if !have {
+				pv = su.freshValue(st, r.p.Name(), r.p.Type())
+				st.vars[r.p] = pv
+				su.refFacts(st, pv, st.clock)
+			}
+			if r.k >= len(pv.L) || strings.ContainsAny(pv.L[r.k].S, " ()") {
+				okAll = false
+				break
+			}
+			toks[i] = pv.L[r.k].S
+		}
+		if okAll {
+			st.assume(Eq(val.L[f.k], Term{joinSMT(toks), f.sort}))
+			su.abstractions[fmt.Sprintf("captured variable %s: its value at the creation of the literal (fixed from there on) handed down from %s", f.v.Name(), su.parent.name)] = true
+		}
+	}
 	su.boxEscaping(st, fr)
 	su.assumeAxioms(st)
 	// captured variables are symbolic; requires may constrain them
